@@ -4,12 +4,12 @@
    (snapshot discipline), TreeSyncExchange.v (one answered request / one exchange / convergence of the stored sets),
    TreeSyncHeads.v (heads = childless members of the store; model meets the final conjunct of spec_C01),
    TreeSyncFair.v (executable recognisers of exchanges, for the examples), TreeSyncExact.v (upper bounds: an exchange
-   gives exactly the union; responses carry only stored changes). *)
+   gives exactly the union; responses carry only stored changes), TreeSyncSpecFull.v (model meets spec_C01). *)
 From Coq Require Import List NArith Bool Arith.
 Import ListNotations.
 From AnySync Require Import Lib.Dag Model.Dfs Model.Tree Model.LoadIter Model.TreeSync
   Proofs.LoadIter Proofs.TreeSyncClosure Proofs.TreeSyncConverge Proofs.TreeSyncSpec Proofs.TreeSyncSnapshot
-  Proofs.TreeSyncExchange Proofs.TreeSyncHeads Proofs.TreeSyncFair Proofs.TreeSyncExact Run.C01_run.
+  Proofs.TreeSyncExchange Proofs.TreeSyncHeads Proofs.TreeSyncFair Proofs.TreeSyncExact Proofs.TreeSyncSpecFull Run.C01_run.
 Open Scope N_scope.
 
 (* (1) Causal closure is an invariant of EVERY trace: for every number of replicas, every label sequence (local
@@ -267,6 +267,20 @@ Theorem c01_model_meets_spec_final : forall n root size pre ls,
 Proof. exact final_all_equal. Qed.
 Print Assumptions c01_model_meets_spec_final.
 
+(* MODEL MEETS SPEC.  The history the model itself produces ([model_hist]: after every step the acting replica, every
+   replica's stored ids and heads, the emitted messages) on ANY label sequence [pre] (local adds, arbitrary deliveries,
+   syncs) followed by ANY fair anti-entropy phase [ls], for any number of replicas of an honest tree, passes the
+   executable property predicate spec_C01 in full: every step (closure, heads stored, heads and changes of every emitted
+   message — response batches included — stored by the emitter) and the final conjunct (identical stored sets and heads). *)
+Theorem c01_model_meets_spec : forall n root size pre ls,
+  honest_root root -> (0 < n)%nat ->
+  let w := run next_batch (init_world n root size) pre in
+  noadd ls -> fair next_batch w ls ->
+  let w' := run next_batch w ls in
+  spec_C01 (wG w') (model_hist next_batch (init_world n root size) (pre ++ ls)) = true.
+Proof. exact model_meets_spec. Qed.
+Print Assumptions c01_model_meets_spec.
+
 (* the executable recognisers used in the examples are sound *)
 Theorem c01_fair_recogniser_sound : forall nb w ls sched, fair_by nb w ls sched = true -> fair nb w ls.
 Proof. exact fair_by_sound. Qed.
@@ -385,3 +399,11 @@ Proof.
   split; [apply (exchange_at_sound next_batch ex2_w _ 0 1 0 0 1); vm_compute; reflexivity|].
   split; [apply between_b_sound; vm_compute; reflexivity | vm_compute; reflexivity].
 Qed.
+
+(* the model's own history of the example: 20 steps, passes spec_C01 (as c01_model_meets_spec says it must) *)
+Example c01_model_meets_spec_nonvacuous :
+  let h := model_hist next_batch (init_world 3 ex2_root 63) (ex2_pre ++ ex2_phase) in
+  length h = 20%nat
+  /\ spec_C01 (wG (run next_batch ex2_w ex2_phase)) h = true
+  /\ length (flat_map (fun s => so_emit (snd s)) h) = 29%nat.
+Proof. vm_compute. repeat split; reflexivity. Qed.
